@@ -3,7 +3,9 @@
    harness/cmd/stmt from a REAL framework.Statement on a REAL framework.Session.
 
    Events (one JSON object per line):
-     Scenario  id, class, cfg (the scenario record of Stmt), state (real projection of the fresh session)
+     Scenario  id, class, cfg (the scenario record of Stmt), state (real projection of the fresh session:
+               pods, nodes, jobs, queues as in Stmt, and claims = [pods: pod with a claim -> its own claim record and the DRA
+               manager's view of the claim object, inuse: DRA node -> devices the DRA manager counts as allocated])
      Call      op, p, node, upd, g, cp, j, err, state, ops     after an API call of Statement returned
                (op = Evict | Pipeline | Allocate | Unevict | Checkpoint | Rollback | Discard | Convert |
                 CommitBegin (logged by the commit-begin hook) | CommitEnd)
@@ -24,7 +26,9 @@
      C13_NoPhantomObs  after Commit returned (complete, or stopped by a failed bind) no pod that this statement changed
                        virtually is left without a successful Cache call for it, and none is left Allocated
      C14_*Obs          the REAL counters against truth recomputed by this spec from the REAL pod statuses,
-                       at every logged state (including the undo steps inside Rollback / Discard / Commit)
+                       at every logged state (including the undo steps inside Rollback / Discard / Commit);
+                       C14_ClaimDevicesObs: the devices the DRA manager counts as in use are exactly the devices in the
+                       claims' allocations and no device is allocated to two claim objects
      D_*               the model of Stmt.tla re-executed in lock-step against the real state (drift, never a violation)
 *)
 EXTENDS Stmt
